@@ -98,9 +98,16 @@ fn run_ops(ctx: &mut Ctx, cfg: &Config, ops: &[Op], explore_stalls: bool, forced
         // explore: the terminal may fall silent before any packet of this answer
         let idx: Vec<usize> = steps.iter().enumerate().filter(|(_, s)| matches!(s, Step::Packet(..) | Step::Raw(..))).map(|(i, _)| i).collect();
         for (k, &i) in idx.iter().enumerate() {
-            let c = ctx.dev(4, "stall");
+            let c = ctx.dev(5, "stall");
+            if c == 4 {
+                // the terminal closes the connection here (no stall): combined with a later stall
+                // this reaches the paths that follow an I/O error on a connection that was kept
+                steps.truncate(i);
+                steps.push(Step::Close);
+                return Some(steps);
+            }
             if c > 0 {
-                let left = [0, 0, 2, u32::MAX - 1][c];
+                let left = [0, 0, 2, u32::MAX - 1, 0][c];
                 s.persist = Some(Persist::Packet(x, k, if c == 3 { u32::MAX } else { left }));
                 s.applied_on.push(req.conn);
                 steps.truncate(i);
@@ -257,7 +264,7 @@ pub fn run(run: &RunInfo) -> Summary {
             }
             let mut cfg = base_config();
             cfg.transactions_max_num = *max;
-            let st = dbx::explore(if thorough { 2 } else { 1 }, 50_000_000, |ctx| {
+            let st = dbx::explore(2, 50_000_000, |ctx| {
                 let o = run_ops(ctx, &cfg, ops, true, None, 0, acc);
                 acc.count("executions", 1);
                 acc.max("max_elapsed_s", o.max_elapsed_ms / 1000);
@@ -339,7 +346,7 @@ pub fn run(run: &RunInfo) -> Summary {
         transitions: acc.get("transitions"),
         traces_validated: execs,
         distinct_nontrivial: acc.set_len("outcomes"),
-        rule: "real Feig client against the simulated terminal under the paused clock: 6 scenarios (Feig::new + read_card / begin / commit / cancel / commit with another transaction open / configure) x a stall at every terminal-to-client packet position of every exchange (handshake included), at connect (future never resolving) and on the write side (data never accepted), each lasting for this connection only, for the first three connections, or for every connection; read_card_timeout 0..=255 each with a reply delayed by 1 s (must be accepted) and with a permanently silent terminal; transactions_max_num {0,1,usize::MAX}, password/amount/currency at both ends of their wire range, empty / non-numeric / oversized terminal ids, each with a responsive and with a silent terminal. Oracle: every call returns, no panic, virtual elapsed time <= exchanges x 20 x (2 s + 6 x T)".into(),
+        rule: "real Feig client against the simulated terminal under the paused clock: 6 scenarios (Feig::new + read_card / begin / commit / cancel / commit with another transaction open / configure) x a stall at every terminal-to-client packet position of every exchange (handshake included), at connect (future never resolving) and on the write side (data never accepted), each lasting for this connection only, for the first three connections, or for every connection, and the terminal closing the connection at any packet position; every pair of such faults per history; read_card_timeout 0..=255 each with a reply delayed by 1 s (must be accepted) and with a permanently silent terminal; transactions_max_num {0,1,usize::MAX}, password/amount/currency at both ends of their wire range, empty / non-numeric / oversized terminal ids, each with a responsive and with a silent terminal. Oracle: every call returns, no panic, virtual elapsed time <= exchanges x 20 x (2 s + 6 x T)".into(),
         exhaustive: true,
         required_witnesses: vec![
             "the terminal fell silent at some packet position".into(),
@@ -349,7 +356,7 @@ pub fn run(run: &RunInfo) -> Summary {
         ],
         assumptions: vec![
             "configuration values that cannot be represented in their wire field (password >= 10^6, amount >= 10^12) make the encoder panic and are outside the domain".into(),
-            "one stall (possibly persistent) per history in the quick tier, two in the thorough tier".into(),
+            "at most two faults (stall or close) per history".into(),
         ],
         bounds: json!({"stall_budget": 1, "read_card_timeout": "0..=255"}),
         caps_hit: vec![],
